@@ -1,5 +1,9 @@
 use crate::runner::{Arm, Ctx};
 
+pub mod c01;
+pub mod c05;
+pub mod c06;
+pub mod c07;
 pub mod c31;
 pub mod c37;
 
@@ -11,6 +15,10 @@ pub struct Property {
 }
 
 pub const ALL: &[Property] = &[
+    Property { id: "C01", level: "exploration", build: c01::build },
+    Property { id: "C05", level: "exploration", build: c05::build },
+    Property { id: "C06", level: "exploration", build: c06::build },
+    Property { id: "C07", level: "exploration", build: c07::build },
     Property { id: "C31", level: "exploration", build: c31::build },
     Property { id: "C37", level: "exploration", build: c37::build },
 ];
